@@ -24,11 +24,23 @@ mod split {
 
 #[dispatch]
 mod split_at {
-    use crate::CelValue;
+    use crate::{CelError, CelResult, CelValue};
 
-    fn split_at(this: String, at: i64) -> Vec<CelValue> {
-        let (left, right) = this.split_at(at as usize);
+    fn split_at(this: String, at: i64) -> CelResult<Vec<CelValue>> {
+        let at = match usize::try_from(at) {
+            Ok(at) => at,
+            Err(_) => return Err(CelError::value("splitAt() index is negative")),
+        };
 
-        vec![left.into(), right.into()].into()
+        // false beyond the end of the string and inside a multi-byte character
+        if !this.is_char_boundary(at) {
+            return Err(CelError::value(
+                "splitAt() index is not a character boundary of the string",
+            ));
+        }
+
+        let (left, right) = this.split_at(at);
+
+        Ok(vec![left.into(), right.into()])
     }
 }
